@@ -198,7 +198,7 @@ pub fn run_c12(args: &Args) -> i32 {
   net::set_policy_drop_all();
   let mut rep = Report::new(
     args,
-    "DiscoveryDB leg: random scripts of update_participant / participant_is_alive / participant_cleanup / dispose / endpoint announcements / real sleeps (5-300 ms) over 1-3 participants with leases 40-400 ms, infinite and absent, every call bracketed by Instant::now(); stack leg: real participant against fake remote participants with 2 s leases that are kept alive, go silent, get disposed and reappear; distinct = hash of the op-kind sequence and leases; non-trivial = >=2 cleanups and >=1 sleep (DB leg), >=2 set changes (stack leg)",
+    "DiscoveryDB leg: random scripts of update_participant / participant_is_alive / participant_cleanup / dispose / endpoint announcements / real sleeps (5-300 ms) over 1-3 participants with leases 40-400 ms, infinite and absent, every call bracketed by Instant::now(); stack leg: real participant against fake remote participants with 2 s leases that are kept alive (half of them address SPDP to ENTITYID_UNKNOWN, half repeat the announcement with the same sequence number, as stateless SPDP writers of other implementations do), go silent, get disposed and reappear; distinct = hash of the op-kind sequence and leases; non-trivial = >=2 cleanups and >=1 sleep (DB leg), >=2 set changes (stack leg)",
   );
   rep.assume("DB leg: a cleanup verdict is judged only when the measured brackets decide it: must-keep if the largest possible silence <= lease, must-drop if the smallest possible silence > lease; straddling cases are counted as indeterminate");
   rep.assume("stack leg: not-dropped-early judged on (time the loss was observed - time before the last announcement was sent) >= lease; the upper bound (lease + cleanup period 2 s + slack) is a watchdog: 12 s beyond the lease, else violation drop-after; a loss while the harness itself paused > 60% of the lease between keep-alives is inconclusive");
